@@ -204,8 +204,8 @@ def main() -> int:
     items += [{"src": s, "want_table": True} for s in valid_srcs]
     items += [{"src": s} for s in degenerate()]
     seeds = valid_srcs[:40] + [i["src"] for i in items[:n_invalid:37]]
-    items += [{"src": s} for s in corrupt_tokens(rng, seeds, 2500 if not thorough else 30000)]
-    items += [{"src": s} for s in random_texts(rng, 800 if not thorough else 8000)]
+    items += [{"src": s} for s in corrupt_tokens(rng, seeds, 2500 if not thorough else 80000)]
+    items += [{"src": s} for s in random_texts(rng, 800 if not thorough else 20000)]
     recs = pmap(run_src, items, limit=20.0, chunk=32)
     recs += pmap(run_tree, import_cases(), chunk=2)
     hangs = 0
